@@ -539,4 +539,62 @@ theorem run_path_eq_spec (t : Tree) (hf : NoFault t) (hv : ValidTree t) (p : Pat
   simp only [run, exec_execTrace _ _ _ _ _ h2, evalPath]
   simp [List.reverse_append]
 
+
+/-- one location path in the middle of an expression: its requests are issued, its value lands on the stack, and the
+    machine is as it was — one empty context path, no predicate open — whatever was on the stack and in the history -/
+theorem exec_path_value (t : Tree) (hf : NoFault t) (hv : ValidTree t) (p : PathE) (hg : GoodPath p) (s : MSt)
+    (hp : s.paths = [{}]) (hc : s.predCount = 0) (he : s.predEvalPath = 0) (hr : s.prevReqELP = true) :
+    ∃ llf, exec true t (pathCode p ++ [.evalLocPath]) s = .ok { s with
+      stack := (evalPath t p).2 :: s.stack,
+      paths := [{}],
+      trace := (evalPath t p).1.reverse ++ s.trace,
+      ncalls := s.ncalls + (evalPath t p).1.length,
+      isLLF := llf } := by
+  obtain ⟨llf, h1⟩ := exec_pathCode t hf hv p hg s hp hc he hr
+  refine ⟨llf, ?_⟩
+  rw [exec_append_ok _ _ _ _ _ _ h1]
+  simp [exec, step, hc, hr, evalInternal, popPath, callback_ok t hf, newFromActual, evalPath, navReq,
+    List.reverse_append, Nat.add_assoc]
+
+
+/-- the code that evaluates the paths one after the other (the operands of an operator, the arguments of a function) -/
+def pathsCode : List PathE → List PI
+  | [] => []
+  | p :: r => (pathCode p ++ [.evalLocPath]) ++ pathsCode r
+
+def pathsTrace (t : Tree) : List PathE → List String
+  | [] => []
+  | p :: r => (evalPath t p).1 ++ pathsTrace t r
+
+def pathsValues (t : Tree) : List PathE → List Datum
+  | [] => []
+  | p :: r => (evalPath t p).2 :: pathsValues t r
+
+/-- several location paths in one expression: the requests of the first, then those of the second, … — each path is
+    resolved from the context node as if it stood alone (nothing of one path is left behind for the next) — and their
+    values lie on the stack in source order -/
+theorem exec_paths (t : Tree) (hf : NoFault t) (hv : ValidTree t) (ps : List PathE) (hg : ∀ p ∈ ps, GoodPath p) (s : MSt)
+    (hp : s.paths = [{}]) (hc : s.predCount = 0) (he : s.predEvalPath = 0) (hr : s.prevReqELP = true) :
+    ∃ llf, exec true t (pathsCode ps) s = .ok { s with
+      stack := (pathsValues t ps).reverse ++ s.stack,
+      paths := [{}],
+      trace := (pathsTrace t ps).reverse ++ s.trace,
+      ncalls := s.ncalls + (pathsTrace t ps).length,
+      isLLF := llf } := by
+  induction ps generalizing s with
+  | nil =>
+    refine ⟨s.isLLF, ?_⟩
+    cases s
+    simp_all [pathsCode, pathsValues, pathsTrace, exec]
+  | cons p r ih =>
+    obtain ⟨l1, h1⟩ := exec_path_value t hf hv p (hg p (by simp)) s hp hc he hr
+    obtain ⟨l2, h2⟩ := ih (fun q hq => hg q (by simp [hq]))
+      { s with stack := (evalPath t p).2 :: s.stack, paths := [{}], trace := (evalPath t p).1.reverse ++ s.trace,
+               ncalls := s.ncalls + (evalPath t p).1.length, isLLF := l1 } rfl hc he hr
+    refine ⟨l2, ?_⟩
+    simp only [pathsCode]
+    rw [exec_append_ok _ _ _ _ _ _ h1, h2]
+    simp [pathsValues, pathsTrace, List.reverse_append, List.append_assoc, Nat.add_assoc]
+
+
 end YV.XM
